@@ -585,12 +585,12 @@ Theorem ticker_guarded c :
 Proof.
   intros C. split; [apply ticker_guarded_exit_enabled; exact C|].
   intros ls c' R. destruct (ticker_guarded_bounded ls c c' C R) as [B1 B2]. split; [|split].
-  - revert c C R. induction ls as [|l ls IH]; simpl; intros c C R.
+  - clear B1 B2. revert c C R. induction ls as [|l ls IH]; simpl; intros c C R.
     + inversion R; subst; exact C.
     + destruct (step true c l) as [c1|] eqn:E; [|discriminate].
       destruct (step_guarded_measure _ _ _ C E) as [C1 _]. eapply IH; eauto.
   - lia.
-  - intros T. unfold tmeasure in B1. destruct (ticker c'); auto; lia.
+  - intros T. revert B1. unfold tmeasure at 1. destruct (ticker c'); intros B1; auto; lia.
 Qed.
 
 End TickerSpec.
